@@ -377,6 +377,10 @@ def run(ctx, rep):
 
 SIM = "flumine/simulation/simulatedorder.py"
 MUTANTS = [
+    dict(id="c08-replacement-default-client", file="flumine/execution/simulatedexecution.py", func="SimulatedExecution.execute_replace",
+         old="                        replacement_order, execute=False, client=order.client\n",
+         new="                        replacement_order, execute=False\n", expect=["R2"],
+         why="the replacing order is re-stamped with the default client and summarised under it"),
     dict(id="c08-stake-share-rounded", file=SIM, func="SimulatedOrder.profit",
          old="                    profit = (self.size_matched / number_of_dead_heat_winners) * (",
          new="                    profit = round(self.size_matched / number_of_dead_heat_winners, 2) * (",
